@@ -136,3 +136,33 @@ pub fn is_resource_stop(m: &Matcher) -> bool {
     use llguidance::api::StopReason::*;
     matches!(m.stop_reason(), LexerTooComplex | ParserTooComplex | MaxTokensTotal | MaxTokensParser)
 }
+
+
+thread_local! {
+    /// token history of the last failing mask computation (set where the failure is seen, read where the
+    /// violation would be filed)
+    pub static LAST_FAILED_HIST: std::cell::RefCell<Vec<u32>> = const { std::cell::RefCell::new(Vec::new()) };
+}
+
+pub fn note_failed_hist(h: &[u32]) {
+    LAST_FAILED_HIST.with(|x| *x.borrow_mut() = h.to_vec());
+}
+
+/// The Matcher folds every failure into InternalError. To learn whether a failing call was a documented
+/// resource-limit stop, the history is replayed on a bare TokenParser whose StopReason stays visible.
+pub fn resource_stop_on_replay(f: &ParserFactory, g: &GCase, hist: &[u32]) -> bool {
+    use llguidance::api::StopReason::*;
+    let r = std::panic::catch_unwind(std::panic::AssertUnwindSafe(|| {
+        let Ok(mut p) = parser(f, g) else { return false };
+        p.start_without_prompt();
+        let res = |p: &TokenParser| matches!(p.stop_reason(), LexerTooComplex | ParserTooComplex | MaxTokensTotal | MaxTokensParser);
+        for &t in hist {
+            if p.consume_token(t).is_err() {
+                return res(&p);
+            }
+        }
+        let _ = p.compute_mask();
+        res(&p)
+    }));
+    r.unwrap_or(false)
+}
